@@ -67,6 +67,10 @@ func (w *World) tryReplay(o *Options, m *Obligation) *replayResult {
 type scenarioMap struct {
 	Obligation string `json:"obligation"`
 	Test       string `json:"test"`
+	// in-package drivers (they need unexported knobs): File under scenarios/inpkg is overlaid into package Pkg
+	// (a directory of the repository, e.g. "leveldb") for the run; nothing is written to the repository
+	Pkg  string `json:"pkg,omitempty"`
+	File string `json:"file,omitempty"`
 }
 
 var scenarioCache = map[string]*replayResult{}
@@ -109,6 +113,20 @@ func (w *World) scenarioReplay(o *Options, obligation string) *replayResult {
 		}
 		cmd := exec.Command("go", "test", "-count=1", "-vet=off", "-timeout", "120s", "-run", "^"+sm.Test+"$", ".")
 		cmd.Dir = run
+		if sm.Pkg != "" {
+			ovd, err := os.MkdirTemp("", "gocv-ov-")
+			if err != nil {
+				return nil
+			}
+			defer os.RemoveAll(ovd)
+			ov := map[string]map[string]string{"Replace": {
+				filepath.Join(o.Repo, sm.Pkg, "zz_scenario_driver_test.go"): filepath.Join(dir, "inpkg", sm.File)}}
+			ob, _ := json.Marshal(ov)
+			ovf := filepath.Join(ovd, "overlay.json")
+			os.WriteFile(ovf, ob, 0o644)
+			cmd = exec.Command("go", "test", "-overlay", ovf, "-count=1", "-vet=off", "-timeout", "120s", "-run", "^"+sm.Test+"$", "./"+sm.Pkg+"/")
+			cmd.Dir = o.Repo
+		}
 		cmd.Env = append(os.Environ(), "GOFLAGS=-mod=mod", "GOPROXY=off", "GOSUMDB=off", "GOTOOLCHAIN=local")
 		out, err := cmd.CombinedOutput()
 		res := &replayResult{}
@@ -119,7 +137,7 @@ func (w *World) scenarioReplay(o *Options, obligation string) *replayResult {
 		switch {
 		case err != nil && strings.Contains(string(out), "--- FAIL"):
 			res.Reproduced = true
-			res.Text = fmt.Sprintf("scenario driver %s (scenarios/) FAILED on the real code, i.e. the violation reproduces:\n%s\nreplay with: cd /verif/scenarios && go test -run '^%s$' .\n", sm.Test, txt, sm.Test)
+			res.Text = fmt.Sprintf("scenario driver %s (scenarios/) FAILED on the real code, i.e. the violation reproduces:\n%s\nreplay with: cd /verif/scenarios && go test -run '^%s$' .   (in-package drivers: go test -overlay, see scenarios/README)\n", sm.Test, txt, sm.Test)
 		case err != nil:
 			res.Text = fmt.Sprintf("scenario driver %s could not be run:\n%s\n", sm.Test, txt)
 		default:
